@@ -1,0 +1,17 @@
+//go:build verif
+
+package kv
+
+import "github.com/lindb/lindb/kv/version"
+
+// VerifC01SchedCommit commits el through the family's production commit path
+// (family.commitEditLog -> store.commitFamilyEditLog -> CommitFamilyEditLog) with schedule points
+// installed on the edit log and on the family version the version set looks up (see
+// version.VerifC01SchedFunc). Verification hook (C01): no production code path calls it.
+func VerifC01SchedCommit(f Family, el version.EditLog, cb version.VerifC01SchedFunc) bool {
+	fam := f.(*family)
+	vs := fam.store.(*store).versions
+	restore := version.VerifC01WrapFamilyVersion(vs, fam.name, cb)
+	defer restore()
+	return fam.commitEditLog(version.VerifC01WrapEditLog(vs, el, cb))
+}
